@@ -7,6 +7,8 @@
 // implementation, DESIGN 2.5 "either").
 package c11
 
+import "sort"
+
 // Event indices used in cases (independent of the numeric values in app/consts.go).
 const (
 	evKill = iota
@@ -133,6 +135,24 @@ func (m *model) path(s int) []int {
 // listener ran.
 func (m *model) chain(s, ev int) (ids []int, failed bool) {
 	pol := policy()
+	if pol.global {
+		// every listener on the chain, in registration order (listener ids are handed out in that order)
+		var all []lst
+		for _, a := range m.path(s) {
+			all = append(all, m.sc[a].ls[ev]...)
+		}
+		sort.Slice(all, func(i, j int) bool { return all[i].id < all[j].id })
+		for _, l := range all {
+			ids = append(ids, l.id)
+			if l.fail {
+				failed = true
+				if pol.after == stopAll {
+					return ids, true
+				}
+			}
+		}
+		return ids, failed
+	}
 	levels := m.path(s)
 	if pol.ownFirst {
 		for i, j := 0, len(levels)-1; i < j; i, j = i+1, j-1 {
